@@ -49,7 +49,9 @@ func cmdReplay(args []string) {
 	workers := fs.Int("workers", 16, "parallel scripts")
 	wdog := fs.Int("watchdog", 10000, "per-call watchdog in ms")
 	shard := fs.Int("shard", 0, "max events per output file (0 = single file); files are out.N")
+	mflag := fs.Bool("metrics", false, "snapshot the Prometheus registry after every call (use with -workers 1)")
 	fs.Parse(args)
+	metricsMode = *mflag
 	hdr, scripts := readNdjson(*in)
 	traces := make([][]M, len(scripts))
 	var wg sync.WaitGroup
